@@ -1,6 +1,8 @@
 """Family `ans`: histories on AnsCoder<Word, State, Vec<Word>>.
 
 Input (ints):  wb sb pb  <models>  init_kind init_words(len-prefixed)  ops...
+  init_kind 0 new, 1 from_compressed, 2 from_binary; 11 / 12 the same through the iterator-backed
+  constructors from_reversed_compressed_iter / from_reversed_binary_iter
   ops: 1 m sym        encode_symbol                    -> 0 | -1 (ImpossibleSymbol)
        2 m            decode_symbol                    -> sym
        3              into_compressed -> from_compressed -> 0 | -2
@@ -63,6 +65,11 @@ def _header(rng):
 
 
 def _assemble(wb, sb, pb, ms, kind, ws, ops):
+    # init_kind + 10: the same constructor reached through the iterator-backed route
+    # (from_reversed_compressed_iter / from_reversed_binary_iter, then moved onto a Vec through raw
+    # parts); chosen by a content hash so that no generator's random stream changes
+    if kind in (1, 2) and (sum(ws) + len(ops)) % 3 == 0:
+        kind += 10
     return [wb, sb, pb] + enc_models(ms) + [kind, len(ws)] + ws + ops
 
 
@@ -324,7 +331,7 @@ def walk(inp, out):
     for _ in range(nm):
         k = inp[i + 1]
         i += 2 + 3 * k
-    kind = inp[i]
+    kind = inp[i] % 10
     nw = inp[i + 1]
     i += 2 + nw
     o = 0
@@ -534,7 +541,7 @@ def oracle_C04(inp, out):
     if any(x in (-999999, -999998, -999997, -999996) for x in out):
         return "panic/abort/timeout"
     ms, i = models_of(inp)
-    if inp[i] != 2:
+    if inp[i] % 10 != 2:
         return None
     nw = inp[i + 1]
     data = inp[i + 2:i + 2 + nw]
@@ -589,7 +596,7 @@ def oracle_C06(inp, out):
     if _bad(out):
         return "panic/abort/timeout"
     ms, i = models_of(inp)
-    if inp[i] != 0:
+    if inp[i] % 10 != 0:
         return None
     wb, sb = inp[0], inp[1]
     entries = []
@@ -711,7 +718,7 @@ def oracle_C12(inp, out):
     if _bad(out):
         return "panic/abort/timeout"
     ms, i = models_of(inp)
-    if inp[i] != 0:
+    if inp[i] % 10 != 0:
         return None
     wb, sb = inp[0], inp[1]
     den, num, n = 1, 1, 0
@@ -749,7 +756,7 @@ def oracle_C18(inp, out):
         return "panic/abort/timeout"
     ms, i = models_of(inp)
     wb = inp[0]
-    kind, nw0 = inp[i], inp[i + 1]
+    kind, nw0 = inp[i] % 10, inp[i + 1]
     try:
         sizes = None
         touched = False
@@ -785,7 +792,7 @@ ORACLES = {"C01": oracle_C01, "C04": oracle_C04, "C06": oracle_C06, "C08": oracl
 def nontrivial_C04(inp, out):
     try:
         ms, i = models_of(inp)
-        return inp[i] == 2 and inp[i + 1] >= 1 and any(op == 15 and len(a) >= 1 for op, a, r in walk(inp, out))
+        return inp[i] % 10 == 2 and inp[i + 1] >= 1 and any(op == 15 and len(a) >= 1 for op, a, r in walk(inp, out))
     except Exception:
         return False
 
